@@ -55,12 +55,23 @@ class _Corr:
                 v[r, col] = sgn * self.v[k][r]
         return w.view(SymArray), v.view(SymArray)
 
+    def eigh(self, a, *args, **kw):
+        """like eig, with the eigenvalues in ascending order (l1 < l2)"""
+        w = np.empty(2, dtype=object)
+        v = np.empty((2, 2), dtype=object)
+        for col in range(2):
+            w[col] = self.l[col]
+            sgn = -1 if bool(self.ctx.bool("eigsign%d" % col)) else 1
+            for r in range(2):
+                v[r, col] = sgn * self.v[col][r]
+        return w.view(SymArray), v.view(SymArray)
+
     def __getattr__(self, n):
         return getattr(np.linalg, n)
 
 
 class _LinAlg:
-    """np.linalg stand-in for diagonal covariance matrices (m <= 2): exact inverse; eig returns
+    """np.linalg stand-in for diagonal covariance matrices (m <= 3): exact inverse; eig returns
     the eigenpairs in an arbitrary order with arbitrary signs (all that numpy.linalg.eig
     guarantees besides S v = w v, |v| = 1)."""
 
@@ -87,6 +98,13 @@ class _LinAlg:
             sgn = self.ctx.bool("eigsign%d" % col)
             v[k, col] = -1 if bool(sgn) else 1
         return w.view(SymArray), v.view(SymArray)
+
+    def eigh(self, a, *args, **kw):
+        """numpy.linalg.eigh: as eig, and the eigenvalues come in ascending order"""
+        w, v = self.eig(a)
+        for i in range(len(w) - 1):
+            self.ctx.assume(w[i] <= w[i + 1])
+        return w, v
 
     def __getattr__(self, n):
         return getattr(np.linalg, n)
@@ -126,14 +144,48 @@ def _rec_sqrt(a):
     return np.sqrt(a)
 
 
+class _ReplayLinAlg:
+    """replay of a counterexample: the real numpy.linalg, except that eig's eigenpairs come in the
+    order and with the signs of the counterexample (numpy documents neither; LAPACK happens to return a
+    diagonal matrix' pairs in diagonal order, which would hide a bug that needs another order)"""
+
+    def __init__(self, ctx):
+        self.ctx = ctx
+
+    def eig(self, a):
+        from symx.stubs import choose_permutation
+        w, v = np.linalg.eig(a)
+        n = len(w)
+        perm = choose_permutation(self.ctx, "eigorder", n) if n > 1 else [0]
+        w2, v2 = np.empty_like(w), np.empty_like(v)
+        for col, k in enumerate(perm):
+            sgn = -1 if bool(self.ctx.bool("eigsign%d" % col)) else 1
+            w2[col], v2[:, col] = w[k], sgn * v[:, k]
+        assert np.allclose(a @ v2, v2 * w2)          # still an eigen-decomposition of a
+        return w2, v2
+
+    def __getattr__(self, n):
+        return getattr(np.linalg, n)
+
+
+class _ReplayNp:
+    def __init__(self, ctx):
+        self.linalg = _ReplayLinAlg(ctx)
+
+    def __getattr__(self, n):
+        return getattr(np, n)
+
+
 def _env(ctx):
     if ctx.sym:
         SQRT_ARGS.clear()
         return patched((BM, "np", make_np({"exp": _wexp, "sqrt": _rec_sqrt}, linalg=_LinAlg(ctx))))
+    if any(k.startswith("eigorder") for k in (ctx.values or {})):
+        return patched((BM, "np", _ReplayNp(ctx)))
     return patched()
 
 
-def _x2(ctx, s):
+def _x2(ctx, s, kmin=0):
     """x2_max: unrestricted (< 0) or w^2 / (2 s_min) for an arbitrary half-width w >= 0 of the
     projection window (surjective onto [0, inf); makes sqrt(2 x2_max s_min) the exact term w)."""
     unres = ctx.bool("unrestricted")
@@ -142,15 +194,20 @@ def _x2(ctx, s):
         return True, -1.0
     if ctx.sym:
         w = Q.of(w)
-    return False, w * w / (2 * s[0])
+    return False, w * w / (2 * s[kmin])
 
 
-def _setup(ctx, n, m):
+def _setup(ctx, n, m, kmin=None):
     y = ctx.real_array("y", (n, m))
     x = ctx.real_array("x", (n,))
     s = [ctx.real("s%d" % i, lo=0, lo_open=True) for i in range(m)]
-    for i in range(m - 1):
-        ctx.assume(s[i] <= s[i + 1])        # w.l.o.g. (channels can be relabelled)
+    if kmin is None:
+        for i in range(m - 1):
+            ctx.assume(s[i] <= s[i + 1])        # ascending variances
+    else:
+        for i in range(m):                      # the smallest variance sits in channel kmin, the others in any order
+            if i != kmin:
+                ctx.assume(s[kmin] < s[i])
     yo = ctx.real_array("yo", (1, m))
     if ctx.sym:
         y, x, yo = qarray(y).view(SymArray), qarray(x).view(SymArray), qarray(yo).view(SymArray)
@@ -178,9 +235,11 @@ def _isnan(v):
 
 
 def _cases(tier):
-    c = [(1, 1), (2, 1), (3, 1)]
+    # (1, 3, k): three channels whose smallest variance sits in channel k, not the first one: the
+    # eigenvector matrix of the (diagonal) covariance is then a non-symmetric permutation for some orders
+    c = [(1, 1), (2, 1), (3, 1), (1, 3, 1), (1, 3, 2)]
     if tier == "thorough":
-        c += [(2, 2)]
+        c += [(2, 2), (2, 3, 1)]
     return c
 
 
@@ -192,9 +251,10 @@ def _cases_cdf(tier):
 @harness("C18.predict", cases=_cases,
          expect=lambda c: ["window-is-sound", "mean-is-weighted-mean", "std-is-weighted-std", "nan-iff-no-entry"])
 def k_predict(ctx):
-    n, m = ctx.case
-    y, x, s, S, yo = _setup(ctx, n, m)
-    unrestricted, x2 = _x2(ctx, s)
+    n, m = ctx.case[:2]
+    kmin = ctx.case[2] if len(ctx.case) > 2 else None
+    y, x, s, S, yo = _setup(ctx, n, m, kmin)
+    unrestricted, x2 = _x2(ctx, s, kmin or 0)
     with _env(ctx):
         b = BM.BMCI(y, x, S)
         # the database is stored sorted: a permutation of the input
@@ -467,13 +527,17 @@ PLAN = {
                  "opts": {"query_timeout_ms": 240000, "chunk_paths": 20}, "time_budget": 3000},
 }
 BOUNDS = {"quick": {"database": "predict / window: n <= 3 entries, cdf / quantiles: n <= 2 entries; m = 1 channel, all real y, x, any variance s > 0, any observation, "
-                                "unrestricted mode and every non-negative cut-off x2_max (parameterised by the half-width of the projection window), two quantile fractions"},
-          "thorough": {"database": "adds n = 2 with m = 2 channels (diagonal covariance, eigenpairs in any order and "
+                                "unrestricted mode and every non-negative cut-off x2_max (parameterised by the half-width of the projection window), two quantile fractions; "
+                                "predict / window also for n = 1 entry with m = 3 channels, diagonal covariance whose smallest variance sits in the second or third "
+                                "channel, eigenpairs in any order and sign (eig) or ascending (eigh)"},
+          "thorough": {"database": "adds n = 2 with m = 2 and m = 3 channels (diagonal covariance, eigenpairs in any order and "
                                    "sign) for predict; cdf / quantiles stay at n <= 2 (n = 3 exceeds the solver budget)"}}
 OUTSIDE = ["float underflow of the weights (the reason real runs reach the NaN branch with a non-empty window)",
-           "crps, pdf", "correlated covariances and m > 2", "the quantitative bound on the change caused by x2_max",
+           "crps, pdf", "correlated covariances and m > 3", "the quantitative bound on the change caused by x2_max",
            "LAPACK eig/inv (replaced by their defining contract for diagonal matrices)"]
-STUBS = ["np.linalg.inv / eig for diagonal matrices: exact inverse; eigenpairs in arbitrary order with arbitrary sign",
+STUBS = ["np.linalg.inv / eig / eigh for diagonal matrices: exact inverse; eigenpairs in arbitrary order (eigh: ascending) with arbitrary sign; "
+         "a counterexample is replayed on the real code with the real numpy.linalg whose eig output is re-ordered / re-signed as in the counterexample "
+         "(numpy documents neither order nor sign; LAPACK returns a diagonal matrix' pairs in diagonal order, which hides order-dependent defects)",
          "exp -> an arbitrary positive function of its argument (Ackermannised)",
          "np proxy: searchsorted, interp, argsort/where via solver-decided comparisons"]
 ASSUMPTIONS = ["exact real arithmetic: weights are strictly positive (no underflow)"]
